@@ -24,33 +24,41 @@ MANIFEST = dict(
         "(4) QpMcSimplexDecomp (CS, ATM, ADM, MMR; Model/McSimplex.lean: updateSMO in its three cases incl. solveQuadratic2DTriangle, updateVarsum with its re-computation/snapping rule, deactivateVariable with automatic "
         "deactivateExample, shrink cases 1/2, unshrink, selectWorkingSet/maxGainBox/maxGainSimplex, checkKKT, solve loop): simplex_run_invariants = tables + gradient invariants + mc_simplex_inv "
         "(alpha>=0, 0<=varsum<=C, Sum_p alpha_ip <= C + 1e-14: the constraint up to the slack of the code's own snapping, which the real code does use) for every state reached by QpSolver::solve and by every single operation "
-        "(simplex_ops_preserve; the off-by-one branch of shrink is proved unreachable), simplex_stop_is_kkt, simplex_run_renumbers (the simplex loop too only renumbers Q and lin); "
+        "(simplex_ops_preserve; the off-by-one branch of shrink is proved unreachable), simplex_stop_is_kkt, simplex_run_renumbers (the simplex loop too only renumbers Q and lin), "
+        "simplex_kkt_eps_near_optimal / simplex_generated_near_optimal (stop => KKT(eps) => objective gap for the SIMPLEX-constrained dual: D(b)-D(alpha) <= n*(eps*(2C+1e-14) + 1e-14*C*G) for every b>=0 with row sums <= C, "
+        "G a bound of the final gradient; the multiplier of an example's sum constraint is the smallest gradient of its positive variables; the 1e-14 term is the price of the code's varsum snapping; invariant now two-sided: |varsum - sum alpha| <= 1e-14*max(1,C)); "
         "(5) bias loop as far as it is logic (Model/McBias.lean): bias_loop_consistent — after ANY sequence of inner solves and performBiasUpdate steps all invariants hold and the linear part, read through the renumbered tables, is "
-        "linear(i,p) - nu-row . (accumulated bias) (LinInv through every operation); bias_loop_consistent_simplex: the same for BiasSolverSimplex over runs of the simplex solve loop; "
+        "linear(i,p) - nu-row . (accumulated bias) (LinInv through every operation); bias_loop_consistent_simplex: the same for BiasSolverSimplex over runs of the simplex solve loop; the Rprop rule itself as a state machine "
+        "(biasSolve = BiasSolver::solve with both loops): rprop_bias_solver_consistent (every run ends with all invariants and linear part = linear - nu*reported bias), rprop_step_sizes_positive, rprop_bias_sum_zero (sum-to-zero projection keeps the bias sum); "
         "(6) decision logic generated from CSvmTrainer::train / LinearCSvmTrainer::train: two_class_dispatch, ova_is_binary_per_class, every other formulation uses one of the four table families; "
         "(7) dedicated linear solvers: QpBoxLinear coordinate step (linear_w_inv, linear_box_inv along EVERY schedule, linear_step_gain_nonneg_partial) and QpMcLinear{WW,LLW,ATS,MMR,Reinforced} per-example step "
         "(Model/McLinearMc.lean: calcGradient, solveSub with its inner SMO loop, updateWeightVectors): mc_linear_invariants = w is the formulation's linear map of alpha, 0<=alpha<=C, returned gain >= 0, along EVERY schedule; "
+        "QpMcLinear{CS,ATM,ADM}: mc_linear_sum_invariants_partial (w consistency, alpha>=0, extra column = row sum <= C, alpha(i,y_i)=0 for CS/ADM, along every schedule; hypothesis SweepGuard excludes only the 1e100-sentinel case of the selection); "
+        "the epoch loop of QpMcLinear::solve (Model/McLinearEpoch.lean: ACF schedule arithmetic from the observed draws, preference update, canstop rule): epoch_uniform_sweep_visits_all (all preferences 1 => the schedule is 0..ell-1, every example exactly once "
+        "after any shuffle), epoch_schedule_fits (pos <= ell for arbitrary preferences/draws: no write past the buffer; pos = ell when prefsum is the sum of positive preferences), epoch_linear_stop_weak (AccuracyReached => last epoch was a canstop full sweep with every "
+        "violation < eps at visit time — nothing about the end of the epoch), pref_bounds, epEpoch_prefsum; "
         "(8) configuration invariance in exact arithmetic: mc_kkt_eps_near_optimal / two_stopped_configurations_close, stopped_state_near_optimal, mc_objective_recomputed, generated_Q_psd, perm_examples_equivariant. "
         "Tie to the C++ on every run (both tiers): entry-wise table dumps c=2..8; adversarial op sequences INCLUDING whole solve runs on the real QpMcBoxDecomp AND the real QpMcSimplexDecomp (protected members via subclasses, "
         "QpSolver<Probe>::solve, BiasSolver[Simplex]::performBiasUpdate via an access override; synthetic PSD integer/dyadic kernel matrices) compared line by line with the Float instance of the models bit for bit (complete state incl. varsum, "
         "iterations, stop type, reported accuracy) and, whenever FE_INEXACT stayed clear, with the Rat instance exactly, with independent oracles (tables, box/simplex, recomputed gradient, varsum drift, stopping rule); per-example steps of all "
-        "eight real QpMcLinear classes along arbitrary schedules against the model bit for bit with oracles (w consistency, feasibility, gain = change of the dual objective); one-epoch sweeps of the real QpBoxLinear; trainer level (oracle only): "
+        "eight real QpMcLinear classes along arbitrary schedules against the model bit for bit with oracles (w consistency, feasibility; gain vs change of the dual objective is an informational counter only); whole runs of QpMcLinear::solve "
+        "(a replica of its statements calling the real virtuals records the random draws and shuffled schedules, is validated against the real solve() bit for bit on every run, and is compared with the model incl. Float.exp = std::exp); "
+        "whole runs of the real BiasSolver::solve (Rprop rule + inner solves) against the state-machine model bit for bit; states next to the varsum snapping thresholds (dyadic linear terms, xadddeltas); one-epoch sweeps of the real QpBoxLinear; trainer level (oracle only): "
         "all 9 formulations x offset x shrinking x cache sizes x example permutations x batch sizes x 3 kernels on integer data with 2-5 classes, decision values compared across configurations within the derived bound, box/simplex constraints, "
         "recomputed gradient/KKT/objective, alpha->decision-function map, two-class = binary trainer bit for bit, OVA = per-class binary bit for bit, linear kernel vs dedicated linear solver, and re-use of one model object "
         "(k-class then two-class training and vice versa must equal a fresh model); ASan/UBSan."),
-  note=TRUST + "PARTIAL. Modelled by hand, not translated: McSmo/McSolve/McSimplex/McBias/McLinear/McLinearMc (tied bit for bit on every run). NOT proved: (a) the objective-gap bound for the SIMPLEX-constrained dual "
-       "(simplex_stop_is_kkt gives KKT(eps) in terms of the tracked varsum; the bound would carry an extra term 1e-14*|gradient| from the snapping), and NO never-stuck theorem for the simplex loop: it is false on the current code — "
-       "shrink case 2 deactivates a KKT-violating variable whose example's varsum was snapped to 0 (finding F-C16-4, root cause; the model reproduces the resulting livelock bit for bit); "
-       "(b) BiasSolver::solve's Rprop rule, its two data-dependent loops and their termination (bias_loop_consistent quantifies over every sequence of steps instead; the whole loop is exercised at trainer level only — F-C16-2, F-C16-4 live there); "
-       "(c) QpMcLinear{CS,ATM,ADM} theorems (model + bit-exact tie + oracles only; F-C16-L1 lives there), the ACF/shrinking epoch schedule and the epoch-level stopping rule of QpMcLinear::solve/QpBoxLinear::solve "
-       "(theorems quantify over every schedule; uniform_sweep_visits_all, linear_stop_weak, primal_dual_gap of the design are not proved; 'same primal objective as the kernel solver' is a trainer-level oracle); "
+  note=TRUST + "PARTIAL. Modelled by hand, not translated: McSmo/McSolve/McSimplex/McBias/McLinear/McLinearMc/McLinearEpoch (tied bit for bit on every run). NOT proved / limits: (a) the simplex objective-gap bound is stated in the numbering of the "
+       "final state (a renumbering of the original dual by simplex_run_renumbers) and carries the term 1e-14*C*G; NO never-stuck theorem for the simplex loop (before the fix c0682ba5 it was false: F-C16-4c; not re-attempted on the repaired code); "
+       "(b) BiasSolverSimplex::solve's Rprop variant is not modelled as a state machine (only BiasSolver::solve is; performBiasUpdate of both is); termination of the Rprop loops is not proved (fuel; the driver reports fuel-exhausted) and NOTHING constrains "
+       "the bias the rule chooses — F-C16-2 lives there; the exact (Rat) instance is not run through whole Rprop runs (Float tie only); "
+       "(c) mc_linear_sum_invariants_partial needs SweepGuard (gradients below the 1e100 sentinel); the shrinking variant of QpMcLinear::solve and the UNIFORM strategy are not modelled (LinearCSvmTrainer uses ACF without shrinking); 'same primal objective as the "
+       "kernel solver' stays a trainer-level oracle; the returned gain of QpMcLinear{CS,ADM,ATM}::solveSub is not the objective change (NOTE in findings_proposed/C16.md, not a finding: no clause of C16 is affected; 1260 trainer-level comparisons found nothing); "
        "(d) no theorem about WHICH working set is selected beyond validity (the second-order rule incl. the shifted arguments of maximumGainQuadratic2D is tied bit for bit) and none about convergence (that accuracy IS reached); "
        "(e) the time limit of QpSolver::solve is not modelled. linear_step_gain_nonneg is partial (|x_i|^2+reg>0). The driver re-tabulates the state vectors between model operations and between passes of the solve loop "
        "(identity on the valid index ranges; the loop it runs is the model's solveLoopWith/solveLoopXWith, proved equal to solveLoop/solveLoopX for the identity re-tabulation). Configuration invariance is a theorem about exact arithmetic over a kernel matrix given as a function (C09 owns the cache); PSD of Q is proved for Gram "
        "matrices of explicit features, a hypothesis otherwise; floating-point effects are covered by the correspondence only. For the binary machine (and each one-versus-all machine) with offset a constant shift of the decision values "
-       "between configurations is tolerated (C07 owns bias_in_kkt_interval). Findings: F-C16-L1 (QpMcLinear{CS,ADM,ATM} two-variable step: gain formula / ATM gradient update; validated patch proposed), F-C16-4 (QpMcSimplexDecomp::shrink case 2 vs the varsum snapping: the solve loop "
-       "livelocks, with offset BiasSolverSimplex then stops at a non-KKT point; root cause found this round, validated patches F4c + F4b proposed), F-C16-2 (multi-class offset solver is trajectory dependent; no small patch) "
-       "— see findings_proposed/C16.md; listed in known_findings.json.",
+       "between configurations is tolerated (C07 owns bias_in_kkt_interval). Findings: F-C16-2 (multi-class offset solver: one sweep of block coordinate descent, result depends on example order etc.; re-examined after F4b/F4c; method-of-multipliers patch proposed for the maintainers' decision); "
+       "F-C16-4 residual (slow ATM/ADM convergence beyond the harness iteration limit; the stalls F-C16-4b/4c are fixed in /repo) — see findings_proposed/C16.md; listed in known_findings.json.",
   technique="Lean 4 invariant proofs by induction over operation histories and over whole runs of the modelled solver loops (hand-written models) + source-regenerated tables and decision logic (T2) + differential correspondence with the C++ "
             "(exact / bit / toleranced modes, ASan/UBSan) + independent trainer-level property oracles",
   design="§6 C16, §14 C16")
